@@ -102,7 +102,7 @@ def handle (st : St) (args : List String) (impl : String) : St × Verdict :=
     | _, _ => (st, .unknown)
   | ["prune", s, p] => match nat? s, nat? p with
     | some s, some p => if s ≤ st.hashes.length then
-        match prune ⟨st.hashes, st.removed⟩ s p with
+        match vPrune ⟨st.hashes, st.removed⟩ s p with
         | some (r, b) => ({ st with removed := b.removed }, cmpSpec (showBool r) impl)
         | none => (st, cmpSpec "err" impl)
       else (st, .unknown)
